@@ -122,6 +122,32 @@ func c07RDB(es []c07Entry, vlen int) []byte {
 				b = append(b, c07Str(f)...)
 				b = append(b, c07Str(c07FieldValue(f, vlen))...)
 			}
+		case 4:
+			// a list in the quicklist encoding (one node), large enough for the element-wise route
+			var body []byte
+			prev := 0
+			tail := 10
+			for j, f := range e.fields {
+				if j == len(e.fields)-1 {
+					tail = 10 + len(body)
+				}
+				x := append([]byte{byte(prev), byte(len(f))}, f...)
+				prev = len(x)
+				body = append(body, x...)
+			}
+			le := func(n, w int) []byte {
+				o := make([]byte, w)
+				for k := 0; k < w; k++ {
+					o[k] = byte(n >> (8 * uint(k)))
+				}
+				return o
+			}
+			zl := append(append(append(le(10+len(body)+1, 4), le(tail, 4)...), le(len(e.fields), 2)...), body...)
+			zl = append(zl, 0xff)
+			b = append(b, 14)
+			b = append(b, c07Str(e.key)...)
+			b = append(b, c07Len(1)...)
+			b = append(b, c07Str(zl)...)
 		}
 	}
 	b = append(b, 0xff)
@@ -616,6 +642,20 @@ func genC07(g *gen) {
 				e.kind = 1
 				e.key = []byte("lua")
 				e.fields = [][]byte{[]byte(fmt.Sprintf("return %d", i))}
+			case k < 9 && r.Intn(2) == 0:
+				// a list restored element by element (quicklist above big_key_threshold): RPUSH in pipelined batches of 100
+				e.kind = 4
+				e.key = []byte(fmt.Sprintf("l%d", i))
+				nf := 12 + r.Intn(5)
+				switch r.Intn(6) {
+				case 0:
+					nf = 99 + r.Intn(5)
+				case 1:
+					nf = 137 + r.Intn(70)
+				}
+				for j := 0; j < nf; j++ {
+					e.fields = append(e.fields, []byte(fmt.Sprintf("e%d-%s", j, e.key)))
+				}
 			default:
 				e.kind = 2
 				e.key = []byte(fmt.Sprintf("h%d", i))
